@@ -149,6 +149,29 @@ func (de directoryEntry) size() sizeBytes {
 	return sizeBytes(totalLen)
 }
 
+// directoryEntriesSize returns amount of bytes occupied by encoded entries of one directory.
+// Directory record can't cross sector boundary (ECMA-119 6.8.1.1), so when record doesn't fit
+// to the rest of current sector this rest is left unused (zeroed) and record starts in the next one.
+func directoryEntriesSize(entries []directoryEntry) sizeBytes {
+	var ret sizeBytes
+
+	for _, entry := range entries {
+		ret += directoryEntryGap(ret, entry) + entry.size()
+	}
+
+	return ret
+}
+
+// directoryEntryGap tells how many bytes must be skipped at position (relative to sector-aligned
+// directory start) before entry to not cross sector boundary.
+func directoryEntryGap(position sizeBytes, entry directoryEntry) sizeBytes {
+	if free := sectorSize - position%sectorSize; entry.size() > free {
+		return free
+	}
+
+	return 0
+}
+
 func (de directoryEntry) encode(enc *iso9660encoder) {
 	identifierLen := len(de.Identifier)
 	idPaddingLen := (identifierLen + 1) % 2
